@@ -137,12 +137,21 @@ func internalMarshal(v any) (*internalStruct, error) {
 
 	// 计算指针层数
 	for rt.Kind() == reflect.Ptr {
+		if rt.Name() != "" && ret.PointerNum > 0 {
+			// a defined pointer type (type P *T) behind a pointer: the registry has no name for it
+			// (registration strips pointers), the decoder could only rebuild the unnamed pointer
+			// types, and a pointer to those is not assignable to a pointer to P (reflect.Set panics)
+			return nil, fmt.Errorf("unknown type: %v", rt)
+		}
 		ret.PointerNum++
 		if rv.IsNil() {
 			// PointerNum-1 non-nil pointers lead to this nil one; keep counting so that
 			// PointerNum is the full pointer depth of the static type
 			ret.NonNilPointerNum = ret.PointerNum - 1
 			for rt = rt.Elem(); rt.Kind() == reflect.Ptr; rt = rt.Elem() {
+				if rt.Name() != "" {
+					return nil, fmt.Errorf("unknown type: %v", rt)
+				}
 				ret.PointerNum++
 			}
 			key, ok := rm[rt]
@@ -197,6 +206,11 @@ func internalMarshal(v any) (*internalStruct, error) {
 		// map key类型
 		rkt := rt.Key()
 		for rkt.Kind() == reflect.Ptr {
+			if rkt.Name() != "" {
+				// a container whose key / element type is (or points to) a defined pointer type
+				// cannot be rebuilt: the container of the unnamed pointer type is another type
+				return nil, fmt.Errorf("unknown type: %v", rkt)
+			}
 			ret.MapKeyPointerNum++
 			rkt = rkt.Elem()
 		}
@@ -208,6 +222,9 @@ func internalMarshal(v any) (*internalStruct, error) {
 		// map value类型
 		rvt := rt.Elem()
 		for rvt.Kind() == reflect.Ptr {
+			if rvt.Name() != "" {
+				return nil, fmt.Errorf("unknown type: %v", rvt)
+			}
 			ret.MapValuePointerNum++
 			rvt = rvt.Elem()
 		}
@@ -245,6 +262,9 @@ func internalMarshal(v any) (*internalStruct, error) {
 		// 处理切片和数组类型
 		rvt := rt.Elem()
 		for rvt.Kind() == reflect.Ptr {
+			if rvt.Name() != "" {
+				return nil, fmt.Errorf("unknown type: %v", rvt)
+			}
 			ret.SliceValuePointerNum++
 			rvt = rvt.Elem()
 		}
